@@ -500,3 +500,27 @@ def accumulator_freeze(view, local):
             if (d[0] == r[0] and d[1] > r[1]) or d[0] in after:
                 late.append((r, d))
     return incs, reads, late
+
+
+def accept_blocks(view):
+    """Blocks that assign an accepting value (Ok / true) to the return place."""
+    out = []
+    for b, e in ret_variants(view):
+        if (e[0] == 'agg' and e[2] == 'Ok') or show(e) == 'True':
+            out.append(b)
+    return out
+
+
+def decision_dominates_accept(view, patterns):
+    """Every accepting return is dominated by a block that *decides* one of `patterns` (the
+    switch whose outgoing edge carries the atom, in either polarity): the test cannot be skipped
+    by an else-branch or an early accepting return.  -> (found, ok, undominated accept blocks)."""
+    _, pred, _ = view.graph()
+    dec = set()
+    for en in edge_nodes_matching(view, patterns):
+        dec.update(pred[en])
+    acc = accept_blocks(view)
+    if not dec:
+        return False, False, acc
+    bad = [b for b in acc if not any(view.dominates(d, b) for d in dec)]
+    return True, not bad and bool(acc), bad
